@@ -594,9 +594,21 @@ def check_text_column(ctx, repo):
             if any(p in t for p in ('ax1 < 1', 'ax1 == 0', 'not ax1', 'ax1 <= 0', 'ax < 0', '_ax1 < 1', '_ax1 == 0', 'not self._ax1',
                                     '<= ages[0]', '< ages[1]', '< self.min_age', '< min_age')):
                 guarded = True
-    idx_subs = [n for n in ast.walk(cf) if isinstance(n, ast.Subscript) and 'ax1' in ast.unparse(n.slice)]
+    # the age index: the second name unpacked from find_age(...) (by role), `ax1` in the pinned tree
+    idx_names = set()
+    for n in ast.walk(cf):
+        if isinstance(n, ast.Assign) and isinstance(n.value, ast.Call) and call_name(n.value) == 'find_age' and isinstance(n.targets[0], ast.Tuple):
+            idx_names |= {e.id for e in n.targets[0].elts if isinstance(e, ast.Name)}
+    idx_names = idx_names or {'ax1'}
+    idx_subs = [n for n in ast.walk(cf) if isinstance(n, ast.Subscript) and isinstance(n.ctx, ast.Load)
+                and {x.id for x in ast.walk(n.slice) if isinstance(x, ast.Name)} & idx_names]
     if not idx_subs:
         raise AnalysisError('AthlonsAgeGrader.calculate_factor: no subscript by the age index found')
+    # semantic form of the guard: with the index at 0, every subscript by it is unreachable (some guard on the way fails)
+    from ..src import excluded_by_guards
+    if not guarded:
+        guarded = all(excluded_by_guards(n, cf, {nm: 0 for nm in idx_names if nm in ast.unparse(n.slice)}) for n in idx_subs
+                      if ast.unparse(n.slice) in idx_names)
     if zero_branch and text0 and not guarded:
         ctx.finding('R6', '%s::AthlonsAgeGrader.calculate_factor::age index 0 selects the text column' % AGE, AGE, idx_subs[0].lineno,
                     'for an age below the first masters band find_age yields column 0, which holds the event name in every '
